@@ -22,6 +22,13 @@ func is32BitRegister(regName string) bool {
 	}
 }
 
+// hasSIBByte reports whether the ModR/M byte that calculateModRM produced for mem is followed by
+// a SIB byte: 32-bit addressing with mod != 11 and r/m == 100. The SIB byte itself can be 0x00
+// ([EAX+EAX]), so its value does not tell.
+func hasSIBByte(modrmByte byte, mem *ng_operand.MemoryInfo) bool {
+	return modrmByte>>6 != 3 && modrmByte&0x07 == 0x04 && (is32BitRegister(mem.BaseReg) || is32BitRegister(mem.IndexReg))
+}
+
 // GenerateModRM はエンコーディング情報とビットモードに基づいてModR/Mバイトを生成する
 func GenerateModRM(operands []string, modRM *asmdb.Encoding, bitMode cpu.BitMode) ([]byte, error) { // Keep cpu.BitMode
 	if modRM == nil || modRM.ModRM == nil {
@@ -139,7 +146,7 @@ func ModRMByOperand(modeStr string, regOperand string, rmOperand string, bitMode
 		}
 
 		out := []byte{modrmByte}
-		if sibByte != 0 { // Check if SIB byte is present
+		if hasSIBByte(modrmByte, memInfo) {
 			out = append(out, sibByte)
 		}
 		if len(dispBytes) > 0 {
@@ -201,7 +208,7 @@ func ModRMByValue(modeStr string, regValue int, rmOperand string, bitMode cpu.Bi
 		}
 
 		out := []byte{modrmByte}
-		if sibByte != 0 { // Check if SIB byte is present
+		if hasSIBByte(modrmByte, memInfo) {
 			out = append(out, sibByte)
 		}
 		if len(dispBytes) > 0 {
